@@ -5,6 +5,7 @@ import Bmc.Proofs.C07.Sdr
 import Bmc.Proofs.C07.Setup
 import Bmc.Proofs.C07.Dcmi
 import Bmc.Proofs.C07.Api
+import Bmc.Proofs.GenDec.TranslatedOk
 import Bmc.Proofs.GenDec.ReserveSDRRepositoryRsp
 import Bmc.Proofs.GenDec.GetSystemGUIDRsp
 import Bmc.Proofs.GenDec.SetSessionPrivilegeLevelRsp
@@ -31,9 +32,11 @@ import Bmc.Proofs.GenDec.SessionSelector
 import Bmc.Proofs.GenDec.Message
 import Bmc.Proofs.GenDec.GetDCMICapabilitiesInfoEnhancedSystemPowerStatisticsAttrsRsp
 import Bmc.Proofs.GenDec.GetDCMISensorInfoRsp
+import Bmc.Proofs.GenDec.FullSensorRecord
 import Bmc.Proofs.GenDec.V2Session
 import Bmc.Proofs.GenDec.AES128CBC
 import Bmc.Proofs.ApiWrappers
+import Bmc.Proofs.EndToEnd.DecodeC07
 import Bmc.Proofs.EndToEnd.DecodeSetupC07
 #print axioms Bmc.Proofs.C07.deviceID_decode_spec
 #print axioms Bmc.Proofs.C07.deviceID_short
@@ -148,6 +151,7 @@ import Bmc.Proofs.EndToEnd.DecodeSetupC07
 #print axioms Bmc.Proofs.C07.dcmiManageabilityAccessAttrs_returns_sessionless
 #print axioms Bmc.Proofs.C07.dcmiEnhancedSystemPowerStatisticsAttrs_returns
 #print axioms Bmc.Proofs.C07.dcmiEnhancedSystemPowerStatisticsAttrs_returns_sessionless
+#print axioms Bmc.Proofs.GenDec.translated_ok
 #print axioms Bmc.Proofs.GenDec.ReserveSDRRepositoryRsp_gen_eq
 #print axioms Bmc.Proofs.GenDec.GetSystemGUIDRsp_gen_eq
 #print axioms Bmc.Proofs.GenDec.SetSessionPrivilegeLevelRsp_gen_eq
@@ -174,12 +178,33 @@ import Bmc.Proofs.EndToEnd.DecodeSetupC07
 #print axioms Bmc.Proofs.GenDec.Message_gen_eq
 #print axioms Bmc.Proofs.GenDec.GetDCMICapabilitiesInfoEnhancedSystemPowerStatisticsAttrsRsp_gen_eq
 #print axioms Bmc.Proofs.GenDec.GetDCMISensorInfoRsp_gen_eq
+#print axioms Bmc.Proofs.GenDec.FullSensorRecord_gen_eq
 #print axioms Bmc.Proofs.GenDec.V2Session_gen_eq
 #print axioms Bmc.Proofs.GenDec.AES128CBC_gen_eq
 #print axioms Bmc.Proofs.ApiWrappers.api_wrappers
 #print axioms Bmc.Proofs.ApiWrappers.api_other_senders
 #print axioms Bmc.Proofs.ApiWrappers.api_cmd_constructors
 #print axioms Bmc.Proofs.ApiWrappers.validate_response
+#print axioms Bmc.Proofs.EndToEnd.generated_GetDeviceIDRsp_decodes
+#print axioms Bmc.Proofs.EndToEnd.generated_AuthCapsRsp_decodes
+#print axioms Bmc.Proofs.EndToEnd.generated_CipherSuitesRsp_decodes
+#print axioms Bmc.Proofs.EndToEnd.generated_SetPrivRsp_decodes
+#print axioms Bmc.Proofs.EndToEnd.generated_GUIDRsp_decodes
+#print axioms Bmc.Proofs.EndToEnd.generated_SessionInfoRsp_decodes
+#print axioms Bmc.Proofs.EndToEnd.generated_ChassisStatusRsp_decodes
+#print axioms Bmc.Proofs.EndToEnd.generated_SDRRepoInfoRsp_decodes
+#print axioms Bmc.Proofs.EndToEnd.generated_ReserveRsp_decodes
+#print axioms Bmc.Proofs.EndToEnd.generated_GetSDRRsp_decodes
+#print axioms Bmc.Proofs.EndToEnd.generated_FullSensorRecord_decodes
+#print axioms Bmc.Proofs.EndToEnd.generated_PowerReadingRsp_decodes
+#print axioms Bmc.Proofs.EndToEnd.generated_SDRHeader_decodes
+#print axioms Bmc.Proofs.EndToEnd.generated_SensorReadingRsp_decodes
+#print axioms Bmc.Proofs.EndToEnd.generated_SensorInfoRsp_decodes
+#print axioms Bmc.Proofs.EndToEnd.generated_Cap1_decodes
+#print axioms Bmc.Proofs.EndToEnd.generated_Cap2_decodes
+#print axioms Bmc.Proofs.EndToEnd.generated_Cap3_decodes
+#print axioms Bmc.Proofs.EndToEnd.generated_Cap4_decodes
+#print axioms Bmc.Proofs.EndToEnd.generated_Cap5_decodes
 #print axioms Bmc.Proofs.EndToEnd.generated_OpenSessionRsp_decodes
 #print axioms Bmc.Proofs.EndToEnd.generated_RAKPMessage1_decodes
 #print axioms Bmc.Proofs.EndToEnd.generated_RAKPMessage2_decodes
